@@ -377,7 +377,12 @@ class WebsocketSession(object):
             return
 
         # Connected to the server, but not yet upgraded to websockets
-        yield events.Connected(url, proxy=proxy)
+        try:
+            yield events.Connected(url, proxy=proxy)
+        except GeneratorExit:
+            # The event loop was abandoned, don't leak the socket.
+            self._close_socket()
+            raise
 
         selector = self._selector_cls(sock)
         log.debug('%r created', selector)
@@ -427,3 +432,6 @@ class WebsocketSession(object):
             yield events.Disconnected(graceful=True)
         finally:
             selector.close()
+            # A no-op unless the generator exited prematurely (the caller
+            # broke out of the loop or an exception was thrown).
+            self._close_socket()
